@@ -682,15 +682,124 @@ theorem mem_unionInto : ∀ (l acc : List Int) (x : Int), x ∈ unionInto acc l 
 def srcFramesOf (src : SrcImg) : List Int := match src.frames with | none => [] | some l => l
 
 /-- a frame of the segmentation that carries a (single) source image `src` -/
-def FrameHasSrc (s : Seg) (f : Int) (src : SrcImg) : Prop := ∃ fi, s.frame? f = some fi ∧ fi.src = some [src]
+def FrameHasSrc (s : Seg) (f : Int) (src : SrcImg) : Prop := ∃ fi, s.frame? f = some fi ∧ fi.single = .ok (some src)
 
 structure SegLoopInv (s : Seg) (fs : List Int) (a a' : LoopAcc) : Prop where
   valid : ∀ f ∈ fs, ∃ fi, s.frame? f = some fi ∧ fi.segment ∈ a'.segs ∧
-            (∀ l, fi.src = some l → ∃ src, l = [src] ∧ a'.srcUids = some (src.cls, src.inst))
+            ((fi.single = .ok none) ∨ ∃ src, fi.single = .ok (some src) ∧ a'.srcUids = some (src.cls, src.inst))
   segs : ∀ x, x ∈ a'.segs ↔ x ∈ a.segs ∨ ∃ f ∈ fs, ∃ fi, s.frame? f = some fi ∧ fi.segment = x
   keep : ∀ u, a.srcUids = some u → a'.srcUids = some u
   uids : ∀ u, a'.srcUids = some u → a.srcUids = some u ∨ ∃ f ∈ fs, ∃ src, FrameHasSrc s f src ∧ u = (src.cls, src.inst)
   frames : ∀ x, x ∈ a'.srcFrames ↔ x ∈ a.srcFrames ∨ ∃ f ∈ fs, ∃ src, FrameHasSrc s f src ∧ x ∈ srcFramesOf src
+  whole : a'.srcWhole = true ↔ a.srcWhole = true ∨ ∃ f ∈ fs, ∃ src, FrameHasSrc s f src ∧ src.frames = none
+
+/-- extending an invariant by one more leading frame `f` (frame record `fi`) whose effect on the accumulator is `a ↦ a1` -/
+theorem segLoopInv_cons (s : Seg) (f : Int) (fs : List Int) (fi : FrameInfo) (a a1 a' : LoopAcc)
+    (hfi : s.frame? f = some fi) (ih : SegLoopInv s fs a1 a')
+    (hsegs : a1.segs = a.segs ++ [fi.segment])
+    (hcase : (fi.single = .ok none ∧ a1.srcUids = a.srcUids ∧ a1.srcFrames = a.srcFrames ∧ a1.srcWhole = a.srcWhole) ∨
+      ∃ src, fi.single = .ok (some src) ∧ a1.srcUids = some (src.cls, src.inst) ∧
+        (a.srcUids = none ∨ a.srcUids = some (src.cls, src.inst)) ∧
+        (∀ x, x ∈ a1.srcFrames ↔ x ∈ a.srcFrames ∨ x ∈ srcFramesOf src) ∧
+        (a1.srcWhole = true ↔ a.srcWhole = true ∨ src.frames = none)) :
+    SegLoopInv s (f :: fs) a a' := by
+  have hsingle : ∀ src, FrameHasSrc s f src ↔ fi.single = .ok (some src) := by
+    intro src
+    constructor
+    · rintro ⟨fi', h1, h2⟩; rw [hfi] at h1; cases h1; exact h2
+    · intro h; exact ⟨fi, hfi, h⟩
+  constructor
+  · intro g hg
+    rcases List.mem_cons.mp hg with hg | hg
+    · subst hg
+      refine ⟨fi, hfi, (ih.segs _).mpr (Or.inl (by rw [hsegs]; simp)), ?_⟩
+      rcases hcase with ⟨h, _⟩ | ⟨src, h, hu, _⟩
+      · exact Or.inl h
+      · exact Or.inr ⟨src, h, ih.keep _ hu⟩
+    · exact ih.valid g hg
+  · intro x
+    rw [ih.segs x, hsegs]
+    simp only [List.mem_append, List.mem_cons, List.not_mem_nil, or_false]
+    constructor
+    · rintro ((h1 | h1) | ⟨g, hg, fi', h1, h2⟩)
+      · exact Or.inl h1
+      · exact Or.inr ⟨f, Or.inl rfl, fi, hfi, h1.symm⟩
+      · exact Or.inr ⟨g, Or.inr hg, fi', h1, h2⟩
+    · rintro (h1 | ⟨g, hg | hg, fi', h1, h2⟩)
+      · exact Or.inl (Or.inl h1)
+      · subst hg; rw [hfi] at h1; cases h1; exact Or.inl (Or.inr h2.symm)
+      · exact Or.inr ⟨g, hg, fi', h1, h2⟩
+  · intro u hu
+    rcases hcase with ⟨_, h, _⟩ | ⟨src, _, h1, h0, _⟩
+    · exact ih.keep u (by rw [h]; exact hu)
+    · rcases h0 with h0 | h0
+      · rw [h0] at hu; cases hu
+      · rw [h0] at hu; cases hu; exact ih.keep _ h1
+  · intro u hu
+    rcases ih.uids u hu with h1 | ⟨g, hg, src', h1, h2⟩
+    · rcases hcase with ⟨_, h, _⟩ | ⟨src, hs, hu1, h0, _⟩
+      · exact Or.inl (by rw [← h]; exact h1)
+      · rw [hu1] at h1
+        cases h1
+        exact Or.inr ⟨f, by simp, src, (hsingle src).mpr hs, rfl⟩
+    · exact Or.inr ⟨g, by simp [hg], src', h1, h2⟩
+  · intro x
+    rw [ih.frames x]
+    rcases hcase with ⟨hs, _, h, _⟩ | ⟨src, hs, _, _, hf, _⟩
+    · rw [h]
+      constructor
+      · rintro (h1 | ⟨g, hg, src', h1, h2⟩)
+        · exact Or.inl h1
+        · exact Or.inr ⟨g, by simp [hg], src', h1, h2⟩
+      · rintro (h1 | ⟨g, hg, src', h1, h2⟩)
+        · exact Or.inl h1
+        · rcases List.mem_cons.mp hg with hg | hg
+          · subst hg
+            have := (hsingle src').mp h1
+            rw [hs] at this; cases this
+          · exact Or.inr ⟨g, hg, src', h1, h2⟩
+    · rw [hf x]
+      constructor
+      · rintro ((h1 | h1) | ⟨g, hg, src', h1, h2⟩)
+        · exact Or.inl h1
+        · exact Or.inr ⟨f, by simp, src, (hsingle src).mpr hs, h1⟩
+        · exact Or.inr ⟨g, by simp [hg], src', h1, h2⟩
+      · rintro (h1 | ⟨g, hg, src', h1, h2⟩)
+        · exact Or.inl (Or.inl h1)
+        · rcases List.mem_cons.mp hg with hg | hg
+          · subst hg
+            have := (hsingle src').mp h1
+            rw [hs] at this; cases this
+            exact Or.inl (Or.inr h2)
+          · exact Or.inr ⟨g, hg, src', h1, h2⟩
+  · rw [ih.whole]
+    rcases hcase with ⟨hs, _, _, h⟩ | ⟨src, hs, _, _, _, hw⟩
+    · rw [h]
+      constructor
+      · rintro (h1 | ⟨g, hg, src', h1, h2⟩)
+        · exact Or.inl h1
+        · exact Or.inr ⟨g, by simp [hg], src', h1, h2⟩
+      · rintro (h1 | ⟨g, hg, src', h1, h2⟩)
+        · exact Or.inl h1
+        · rcases List.mem_cons.mp hg with hg | hg
+          · subst hg
+            have := (hsingle src').mp h1
+            rw [hs] at this; cases this
+          · exact Or.inr ⟨g, hg, src', h1, h2⟩
+    · rw [hw]
+      constructor
+      · rintro ((h1 | h1) | ⟨g, hg, src', h1, h2⟩)
+        · exact Or.inl h1
+        · exact Or.inr ⟨f, by simp, src, (hsingle src).mpr hs, h1⟩
+        · exact Or.inr ⟨g, by simp [hg], src', h1, h2⟩
+      · rintro (h1 | ⟨g, hg, src', h1, h2⟩)
+        · exact Or.inl (Or.inl h1)
+        · rcases List.mem_cons.mp hg with hg | hg
+          · subst hg
+            have := (hsingle src').mp h1
+            rw [hs] at this; cases this
+            exact Or.inl (Or.inr h2)
+          · exact Or.inr ⟨g, hg, src', h1, h2⟩
 
 theorem segFrameLoop_inv (s : Seg) : ∀ (fs : List Int) (a a' : LoopAcc), segFrameLoop s fs a = .ok a' →
     SegLoopInv s fs a a'
@@ -704,55 +813,15 @@ theorem segFrameLoop_inv (s : Seg) : ∀ (fs : List Int) (a a' : LoopAcc), segFr
     | none => simp [hfi] at h
     | some fi =>
       simp only [hfi] at h
-      cases hsrc : fi.src with
-      | none =>
-        simp only [hsrc] at h
-        have ih := segFrameLoop_inv s fs _ a' h
-        constructor
-        · intro g hg
-          rcases List.mem_cons.mp hg with hg | hg
-          · subst hg
-            refine ⟨fi, hfi, (ih.segs _).mpr (Or.inl (by simp)), ?_⟩
-            intro l hl; rw [hsrc] at hl; cases hl
-          · exact ih.valid g hg
-        · intro x
-          rw [ih.segs x]
-          simp only [List.mem_append, List.mem_cons, List.not_mem_nil, or_false]
-          constructor
-          · rintro ((h1 | h1) | ⟨g, hg, fi', h1, h2⟩)
-            · exact Or.inl h1
-            · exact Or.inr ⟨f, Or.inl rfl, fi, hfi, h1.symm⟩
-            · exact Or.inr ⟨g, Or.inr hg, fi', h1, h2⟩
-          · rintro (h1 | ⟨g, hg | hg, fi', h1, h2⟩)
-            · exact Or.inl (Or.inl h1)
-            · subst hg; rw [hfi] at h1; cases h1; exact Or.inl (Or.inr h2.symm)
-            · exact Or.inr ⟨g, hg, fi', h1, h2⟩
-        · intro u hu; exact ih.keep u hu
-        · intro u hu
-          rcases ih.uids u hu with h1 | ⟨g, hg, src, h1, h2⟩
-          · exact Or.inl h1
-          · exact Or.inr ⟨g, by simp [hg], src, h1, h2⟩
-        · intro x
-          rw [ih.frames x]
-          constructor
-          · rintro (h1 | ⟨g, hg, src, h1, h2⟩)
-            · exact Or.inl h1
-            · exact Or.inr ⟨g, by simp [hg], src, h1, h2⟩
-          · rintro (h1 | ⟨g, hg, src, h1, h2⟩)
-            · exact Or.inl h1
-            · rcases List.mem_cons.mp hg with hg | hg
-              · subst hg
-                obtain ⟨fi', hf', hs'⟩ := h1
-                rw [hfi] at hf'; cases hf'; rw [hsrc] at hs'; cases hs'
-              · exact Or.inr ⟨g, hg, src, h1, h2⟩
-      | some l =>
-        simp only [hsrc] at h
-        match l, hsrc with
-        | [], hsrc => simp at h
-        | _ :: _ :: _, hsrc => simp at h
-        | [src], hsrc =>
-          simp only at h
-          have hhas : FrameHasSrc s f src := ⟨fi, hfi, hsrc⟩
+      cases hsingle : fi.single with
+      | error e => simp [hsingle] at h
+      | ok o =>
+        cases o with
+        | none =>
+          simp only [hsingle] at h
+          exact segLoopInv_cons s f fs fi a _ a' hfi (segFrameLoop_inv s fs _ a' h) rfl (Or.inl ⟨hsingle, rfl, rfl, rfl⟩)
+        | some src =>
+          simp only [hsingle] at h
           have hfr : ∀ (base : List Int) (x : Int),
               x ∈ (match src.frames with | none => base | some l => unionInto base l) ↔ x ∈ base ∨ x ∈ srcFramesOf src := by
             intro base x
@@ -760,101 +829,21 @@ theorem segFrameLoop_inv (s : Seg) : ∀ (fs : List Int) (a a' : LoopAcc), segFr
             cases src.frames with
             | none => simp
             | some l => simp [mem_unionInto]
+          have hwh : ∀ (w : Bool), (match src.frames with | none => true | some _ => w) = true ↔ w = true ∨ src.frames = none := by
+            intro w
+            cases src.frames <;> simp
           cases hu : a.srcUids with
           | none =>
             simp only [hu] at h
-            have ih := segFrameLoop_inv s fs _ a' h
-            constructor
-            · intro g hg
-              rcases List.mem_cons.mp hg with hg | hg
-              · subst hg
-                refine ⟨fi, hfi, (ih.segs _).mpr (Or.inl (by simp)), ?_⟩
-                intro l hl; rw [hsrc] at hl; cases hl
-                exact ⟨src, rfl, ih.keep _ rfl⟩
-              · exact ih.valid g hg
-            · intro x
-              rw [ih.segs x]
-              simp only [List.mem_append, List.mem_cons, List.not_mem_nil, or_false]
-              constructor
-              · rintro ((h1 | h1) | ⟨g, hg, fi', h1, h2⟩)
-                · exact Or.inl h1
-                · exact Or.inr ⟨f, Or.inl rfl, fi, hfi, h1.symm⟩
-                · exact Or.inr ⟨g, Or.inr hg, fi', h1, h2⟩
-              · rintro (h1 | ⟨g, hg | hg, fi', h1, h2⟩)
-                · exact Or.inl (Or.inl h1)
-                · subst hg; rw [hfi] at h1; cases h1; exact Or.inl (Or.inr h2.symm)
-                · exact Or.inr ⟨g, hg, fi', h1, h2⟩
-            · intro u hu'; rw [hu] at hu'; cases hu'
-            · intro u hu'
-              rcases ih.uids u hu' with h1 | ⟨g, hg, src', h1, h2⟩
-              · simp only [Option.some.injEq] at h1
-                exact Or.inr ⟨f, by simp, src, hhas, h1.symm⟩
-              · exact Or.inr ⟨g, by simp [hg], src', h1, h2⟩
-            · intro x
-              rw [ih.frames x]
-              have hx := hfr a.srcFrames x
-              constructor
-              · rintro (h1 | ⟨g, hg, src', h1, h2⟩)
-                · rcases hx.mp h1 with h1 | h1
-                  · exact Or.inl h1
-                  · exact Or.inr ⟨f, by simp, src, hhas, h1⟩
-                · exact Or.inr ⟨g, by simp [hg], src', h1, h2⟩
-              · rintro (h1 | ⟨g, hg, src', h1, h2⟩)
-                · exact Or.inl (hx.mpr (Or.inl h1))
-                · rcases List.mem_cons.mp hg with hg | hg
-                  · subst hg
-                    obtain ⟨fi', hf', hs'⟩ := h1
-                    rw [hfi] at hf'; cases hf'; rw [hsrc] at hs'; cases hs'
-                    exact Or.inl (hx.mpr (Or.inr h2))
-                  · exact Or.inr ⟨g, hg, src', h1, h2⟩
+            exact segLoopInv_cons s f fs fi a _ a' hfi (segFrameLoop_inv s fs _ a' h) rfl
+              (Or.inr ⟨src, hsingle, rfl, Or.inl hu, hfr a.srcFrames, hwh a.srcWhole⟩)
           | some u0 =>
             simp only [hu] at h
             by_cases heq : u0 = (src.cls, src.inst)
             · subst heq
               simp only [if_true] at h
-              have ih := segFrameLoop_inv s fs _ a' h
-              constructor
-              · intro g hg
-                rcases List.mem_cons.mp hg with hg | hg
-                · subst hg
-                  refine ⟨fi, hfi, (ih.segs _).mpr (Or.inl (by simp)), ?_⟩
-                  intro l hl; rw [hsrc] at hl; cases hl
-                  exact ⟨src, rfl, ih.keep _ rfl⟩
-                · exact ih.valid g hg
-              · intro x
-                rw [ih.segs x]
-                simp only [List.mem_append, List.mem_cons, List.not_mem_nil, or_false]
-                constructor
-                · rintro ((h1 | h1) | ⟨g, hg, fi', h1, h2⟩)
-                  · exact Or.inl h1
-                  · exact Or.inr ⟨f, Or.inl rfl, fi, hfi, h1.symm⟩
-                  · exact Or.inr ⟨g, Or.inr hg, fi', h1, h2⟩
-                · rintro (h1 | ⟨g, hg | hg, fi', h1, h2⟩)
-                  · exact Or.inl (Or.inl h1)
-                  · subst hg; rw [hfi] at h1; cases h1; exact Or.inl (Or.inr h2.symm)
-                  · exact Or.inr ⟨g, hg, fi', h1, h2⟩
-              · intro u hu'; rw [hu] at hu'; cases hu'; exact ih.keep _ rfl
-              · intro u hu'
-                rcases ih.uids u hu' with h1 | ⟨g, hg, src', h1, h2⟩
-                · exact Or.inl (by rw [hu]; exact h1)
-                · exact Or.inr ⟨g, by simp [hg], src', h1, h2⟩
-              · intro x
-                rw [ih.frames x]
-                have hx := hfr a.srcFrames x
-                constructor
-                · rintro (h1 | ⟨g, hg, src', h1, h2⟩)
-                  · rcases hx.mp h1 with h1 | h1
-                    · exact Or.inl h1
-                    · exact Or.inr ⟨f, by simp, src, hhas, h1⟩
-                  · exact Or.inr ⟨g, by simp [hg], src', h1, h2⟩
-                · rintro (h1 | ⟨g, hg, src', h1, h2⟩)
-                  · exact Or.inl (hx.mpr (Or.inl h1))
-                  · rcases List.mem_cons.mp hg with hg | hg
-                    · subst hg
-                      obtain ⟨fi', hf', hs'⟩ := h1
-                      rw [hfi] at hf'; cases hf'; rw [hsrc] at hs'; cases hs'
-                      exact Or.inl (hx.mpr (Or.inr h2))
-                    · exact Or.inr ⟨g, hg, src', h1, h2⟩
+              exact segLoopInv_cons s f fs fi a _ a' hfi (segFrameLoop_inv s fs _ a' h) rfl
+                (Or.inr ⟨src, hsingle, rfl, Or.inr hu, hfr a.srcFrames, hwh a.srcWhole⟩)
             · simp [heq] at h
 
 end HdVerif.SREvidenceLemmas
@@ -914,48 +903,189 @@ theorem mem_frames_iff (s : Seg) (fi : FrameInfo) : fi ∈ s.frames ↔ ∃ f, s
     · rw [if_neg hc] at hf
       exact List.mem_of_getElem? hf
 
-theorem gatherSources_sub : ∀ (l : List SrcImg) (seen : List String), ∀ x ∈ gatherSources l seen, x ∈ l ∧ x.inst ∉ seen
-  | [], _ => by simp [gatherSources]
-  | y :: ys, seen => by
-    intro x hx
-    by_cases h : y.inst ∈ seen
-    · simp only [gatherSources, h, if_true] at hx
-      have := gatherSources_sub ys seen x hx
-      exact ⟨by simp [this.1], this.2⟩
-    · simp only [gatherSources, h, if_false, List.mem_cons] at hx
-      rcases hx with hx | hx
-      · subst hx; exact ⟨by simp, h⟩
-      · have := gatherSources_sub ys (seen ++ [y.inst]) x hx
-        exact ⟨by simp [this.1], fun hc => this.2 (by simp [hc])⟩
+/-! per-instance merge of the source images -/
 
-theorem gatherSources_nodup : ∀ (l : List SrcImg) (seen : List String), ((gatherSources l seen).map (·.inst)).Nodup
-  | [], _ => by simp [gatherSources]
-  | y :: ys, seen => by
-    by_cases h : y.inst ∈ seen
-    · simp only [gatherSources, h, if_true]; exact gatherSources_nodup ys seen
-    · simp only [gatherSources, h, if_false, List.map_cons, List.nodup_cons]
-      refine ⟨?_, gatherSources_nodup ys _⟩
-      intro hc
-      obtain ⟨e, he, heq⟩ := List.mem_map.mp hc
-      exact (gatherSources_sub ys (seen ++ [y.inst]) e he).2 (by simp [heq])
+/-- some mention of instance `i` in `L` lists no frame numbers (derived from the whole instance) -/
+def Whole (L : List SrcImg) (i : String) : Prop := ∃ x ∈ L, x.inst = i ∧ x.frames = none
+/-- some mention of instance `i` in `L` lists frame `f` -/
+def HasFrame (L : List SrcImg) (i : String) (f : Int) : Prop := ∃ x ∈ L, x.inst = i ∧ ∃ l, x.frames = some l ∧ f ∈ l
 
-theorem gatherSources_complete : ∀ (l : List SrcImg) (seen : List String) (x : SrcImg), x ∈ l → x.inst ∉ seen →
-    ∃ y ∈ gatherSources l seen, y.inst = x.inst
-  | [], _, _ => by simp
-  | y :: ys, seen, x => by
-    intro hx hns
-    by_cases h : y.inst ∈ seen
-    · simp only [gatherSources, h, if_true]
-      rcases List.mem_cons.mp hx with hx | hx
-      · subst hx; exact absurd h hns
-      · exact gatherSources_complete ys seen x hx hns
-    · simp only [gatherSources, h, if_false, List.mem_cons]
-      by_cases hxy : x.inst = y.inst
-      · exact ⟨y, Or.inl rfl, hxy.symm⟩
-      · rcases List.mem_cons.mp hx with hx | hx
-        · subst hx; exact absurd rfl hxy
-        · obtain ⟨z, hz, hzi⟩ := gatherSources_complete ys (seen ++ [y.inst]) x hx (by simp [hns, hxy])
-          exact ⟨z, Or.inr hz, hzi⟩
+/-- what one entry of the merged table says about the mentions `L` of its instance -/
+def ElemSpec (L : List SrcImg) (y : SrcImg) : Prop :=
+  (∃ x ∈ L, x.inst = y.inst) ∧ (y.frames = none ↔ Whole L y.inst) ∧
+  (∀ fs, y.frames = some fs → ∀ f, f ∈ fs ↔ HasFrame L y.inst f)
+
+theorem mergeSrc_insts : ∀ (acc : List SrcImg) (x : SrcImg),
+    (mergeSrc acc x).map (·.inst) = if x.inst ∈ acc.map (·.inst) then acc.map (·.inst) else acc.map (·.inst) ++ [x.inst]
+  | [], x => by simp [mergeSrc]
+  | y :: ys, x => by
+    by_cases h : y.inst = x.inst
+    · simp [mergeSrc, h]
+    · have h' : ¬ x.inst = y.inst := fun e => h e.symm
+      simp only [mergeSrc, h, if_false, List.map_cons, mergeSrc_insts ys x, List.mem_cons, h', false_or]
+      by_cases hm : x.inst ∈ ys.map (·.inst) <;> simp [hm]
+
+theorem elemSpec_other (L : List SrcImg) (x y : SrcImg) (hne : y.inst ≠ x.inst) (h : ElemSpec L y) : ElemSpec (L ++ [x]) y := by
+  obtain ⟨⟨x0, hx0, he0⟩, h2, h3⟩ := h
+  refine ⟨⟨x0, by simp [hx0], he0⟩, ?_, ?_⟩
+  · rw [h2]
+    constructor
+    · rintro ⟨z, hz, a, b⟩; exact ⟨z, by simp [hz], a, b⟩
+    · rintro ⟨z, hz, a, b⟩
+      simp only [List.mem_append, List.mem_cons, List.not_mem_nil, or_false] at hz
+      rcases hz with hz | hz
+      · exact ⟨z, hz, a, b⟩
+      · subst hz; exact absurd a.symm hne
+  · intro fs hfs f
+    rw [h3 fs hfs f]
+    constructor
+    · rintro ⟨z, hz, a, b⟩; exact ⟨z, by simp [hz], a, b⟩
+    · rintro ⟨z, hz, a, b⟩
+      simp only [List.mem_append, List.mem_cons, List.not_mem_nil, or_false] at hz
+      rcases hz with hz | hz
+      · exact ⟨z, hz, a, b⟩
+      · subst hz; exact absurd a.symm hne
+
+theorem elemSpec_merged (L : List SrcImg) (x y : SrcImg) (he : y.inst = x.inst) (h : ElemSpec L y) :
+    ElemSpec (L ++ [x]) { y with frames := mergeFrames y.frames x.frames } := by
+  obtain ⟨⟨x0, hx0, he0⟩, h2, h3⟩ := h
+  refine ⟨⟨x0, by simp [hx0], he0⟩, ?_, ?_⟩
+  · simp only
+    cases hy : y.frames with
+    | none =>
+      simp only [mergeFrames, true_iff]
+      obtain ⟨z, hz, a, b⟩ := h2.mp hy
+      exact ⟨z, by simp [hz], a, b⟩
+    | some fy =>
+      cases hx : x.frames with
+      | none =>
+        simp only [mergeFrames, true_iff]
+        exact ⟨x, by simp, he.symm, hx⟩
+      | some fx =>
+        simp only [mergeFrames, reduceCtorEq, false_iff]
+        rintro ⟨z, hz, a, b⟩
+        simp only [List.mem_append, List.mem_cons, List.not_mem_nil, or_false] at hz
+        rcases hz with hz | hz
+        · have := h2.mpr ⟨z, hz, a, b⟩
+          rw [hy] at this; cases this
+        · subst hz; rw [hx] at b; cases b
+  · intro fs hfs f
+    simp only at hfs
+    cases hy : y.frames with
+    | none => rw [hy] at hfs; simp [mergeFrames] at hfs
+    | some fy =>
+      cases hx : x.frames with
+      | none => rw [hy, hx] at hfs; simp [mergeFrames] at hfs
+      | some fx =>
+        rw [hy, hx] at hfs
+        simp only [mergeFrames, Option.some.injEq] at hfs
+        subst hfs
+        rw [mem_unionInto, h3 fy hy f]
+        constructor
+        · rintro (⟨z, hz, a, b⟩ | hf)
+          · exact ⟨z, by simp [hz], a, b⟩
+          · exact ⟨x, by simp, he.symm, fx, hx, hf⟩
+        · rintro ⟨z, hz, a, l, b, c⟩
+          simp only [List.mem_append, List.mem_cons, List.not_mem_nil, or_false] at hz
+          rcases hz with hz | hz
+          · exact Or.inl ⟨z, hz, a, l, b, c⟩
+          · subst hz; rw [hx] at b; cases b; exact Or.inr c
+
+theorem elemSpec_new (L : List SrcImg) (x : SrcImg) (hnew : ∀ z ∈ L, z.inst ≠ x.inst) : ElemSpec (L ++ [x]) x := by
+  refine ⟨⟨x, by simp, rfl⟩, ?_, ?_⟩
+  · constructor
+    · intro h; exact ⟨x, by simp, rfl, h⟩
+    · rintro ⟨z, hz, a, b⟩
+      simp only [List.mem_append, List.mem_cons, List.not_mem_nil, or_false] at hz
+      rcases hz with hz | hz
+      · exact absurd a (hnew z hz)
+      · subst hz; exact b
+  · intro fs hfs f
+    constructor
+    · intro hf; exact ⟨x, by simp, rfl, fs, hfs, hf⟩
+    · rintro ⟨z, hz, a, l, b, c⟩
+      simp only [List.mem_append, List.mem_cons, List.not_mem_nil, or_false] at hz
+      rcases hz with hz | hz
+      · exact absurd a (hnew z hz)
+      · subst hz; rw [hfs] at b; cases b; exact c
+
+theorem mergeSrc_elems (L : List SrcImg) (x : SrcImg) : ∀ (acc : List SrcImg),
+    (acc.map (·.inst)).Nodup → (∀ y ∈ acc, ElemSpec L y) → (∀ z ∈ L, z.inst = x.inst → x.inst ∈ acc.map (·.inst)) →
+    ∀ y ∈ mergeSrc acc x, ElemSpec (L ++ [x]) y
+  | [], _, _, hL => by
+    intro y hy
+    simp only [mergeSrc, List.mem_cons, List.not_mem_nil, or_false] at hy
+    subst hy
+    exact elemSpec_new L y (fun z hz e => by simpa using hL z hz e)
+  | y0 :: ys, hN, hE, hL => by
+    intro y hy
+    simp only [List.map_cons, List.nodup_cons] at hN
+    by_cases h : y0.inst = x.inst
+    · simp only [mergeSrc, if_pos h, List.mem_cons] at hy
+      rcases hy with hy | hy
+      · subst hy; exact elemSpec_merged L x y0 h (hE y0 (by simp))
+      · have hne : y.inst ≠ x.inst := by
+          intro e
+          apply hN.1
+          rw [h, ← e]
+          exact List.mem_map.mpr ⟨y, hy, rfl⟩
+        exact elemSpec_other L x y hne (hE y (by simp [hy]))
+    · simp only [mergeSrc, h, if_false, List.mem_cons] at hy
+      rcases hy with hy | hy
+      · subst hy; exact elemSpec_other L x y h (hE y (by simp))
+      · refine mergeSrc_elems L x ys hN.2 (fun z hz => hE z (by simp [hz])) ?_ y hy
+        intro z hz e
+        have := hL z hz e
+        simp only [List.map_cons, List.mem_cons] at this
+        rcases this with this | this
+        · exact absurd this.symm h
+        · exact this
+
+structure GatherInv (L acc : List SrcImg) : Prop where
+  nodup : (acc.map (·.inst)).Nodup
+  elems : ∀ y ∈ acc, ElemSpec L y
+  complete : ∀ z ∈ L, z.inst ∈ acc.map (·.inst)
+
+theorem gatherInv_step (L acc : List SrcImg) (x : SrcImg) (h : GatherInv L acc) : GatherInv (L ++ [x]) (mergeSrc acc x) := by
+  have hi := mergeSrc_insts acc x
+  constructor
+  · rw [hi]
+    by_cases hm : x.inst ∈ acc.map (·.inst)
+    · simp only [hm, if_true]; exact h.nodup
+    · simp only [hm, if_false]
+      rw [List.nodup_append]
+      refine ⟨h.nodup, by simp, ?_⟩
+      intro a ha b hb
+      simp at hb
+      subst hb
+      intro e
+      subst e
+      exact hm ha
+  · exact mergeSrc_elems L x acc h.nodup h.elems (fun z hz e => by rw [← e]; exact h.complete z hz)
+  · intro z hz
+    rw [hi]
+    simp only [List.mem_append, List.mem_cons, List.not_mem_nil, or_false] at hz
+    by_cases hm : x.inst ∈ acc.map (·.inst)
+    · simp only [hm, if_true]
+      rcases hz with hz | hz
+      · exact h.complete z hz
+      · subst hz; exact hm
+    · simp only [hm, if_false, List.mem_append, List.mem_cons, List.not_mem_nil, or_false]
+      rcases hz with hz | hz
+      · exact Or.inl (h.complete z hz)
+      · subst hz; exact Or.inr rfl
+
+theorem gatherInv_foldl : ∀ (l L acc : List SrcImg), GatherInv L acc → GatherInv (L ++ l) (l.foldl mergeSrc acc)
+  | [], L, acc, h => by simpa using h
+  | x :: xs, L, acc, h => by
+    have := gatherInv_foldl xs (L ++ [x]) (mergeSrc acc x) (gatherInv_step L acc x h)
+    simpa [List.append_assoc] using this
+
+/-- **the merged source table**: every instance once; an entry names no frames iff some mention names none, otherwise
+exactly the frames the mentions name -/
+theorem gatherSources_spec (l : List SrcImg) : GatherInv l (gatherSources l) := by
+  have := gatherInv_foldl l [] [] ⟨by simp, by intro y hy; simp at hy, by intro z hz; simp at hz⟩
+  simpa [gatherSources] using this
 
 /-- the frames a `ReferencedSegment` request names: the listed ones, or all frames of the segment -/
 def NamedBy (s : Seg) (seg : Int) (fs : Option (List Int)) (f : Int) : Prop :=
@@ -971,7 +1101,7 @@ theorem refSegment_infos (s : Seg) (seg : Int) (fs : Option (List Int)) (r : Seg
       (∀ f, NamedBy s seg fs f → ∃ fi, s.frame? f = some fi ∧ fi.segment = seg ∧ fi ∈ infos) ∧
       (∀ fi ∈ infos, ∃ f, NamedBy s seg fs f ∧ s.frame? f = some fi) ∧
       (fs = none → infos ≠ []) ∧
-      (let sources := gatherSources (infos.flatMap frameSources) []
+      (let sources := gatherSources (infos.flatMap frameSources)
        if !sources.isEmpty then r = ⟨s.cls, s.inst, fs, seg, sources, none⟩
        else match s.refSeries with
          | none => False
@@ -986,15 +1116,15 @@ theorem refSegment_infos (s : Seg) (seg : Int) (fs : Option (List Int)) (r : Seg
     refine ⟨rfl, ?_⟩
     simp only [hseg, Bool.not_true, Bool.false_eq_true, if_false] at h
     have tail : ∀ infos : List FrameInfo,
-        (if (!(gatherSources (infos.flatMap frameSources) []).isEmpty) = true then
-            (Except.ok ⟨s.cls, s.inst, fs, seg, gatherSources (infos.flatMap frameSources) [], none⟩ : Except ErrKind SegmentRef)
+        (if (!(gatherSources (infos.flatMap frameSources)).isEmpty) = true then
+            (Except.ok ⟨s.cls, s.inst, fs, seg, gatherSources (infos.flatMap frameSources), none⟩ : Except ErrKind SegmentRef)
           else match s.refSeries with
             | none => throw .attribute
             | some ser => match s.refInstances with
               | some l => if l.isEmpty = true then throw .value
                           else Except.ok ⟨s.cls, s.inst, fs, seg, l.map (fun r => ⟨r.cls, r.inst, none⟩), none⟩
               | none => Except.ok ⟨s.cls, s.inst, fs, seg, [], some ser⟩) = .ok r →
-        (let sources := gatherSources (infos.flatMap frameSources) []
+        (let sources := gatherSources (infos.flatMap frameSources)
          if !sources.isEmpty then r = ⟨s.cls, s.inst, fs, seg, sources, none⟩
          else match s.refSeries with
            | none => False
@@ -1003,7 +1133,7 @@ theorem refSegment_infos (s : Seg) (seg : Int) (fs : Option (List Int)) (r : Seg
              | none => r = ⟨s.cls, s.inst, fs, seg, [], some ser⟩) := by
       intro infos ht
       simp only
-      by_cases hne : (!(gatherSources (infos.flatMap frameSources) []).isEmpty) = true
+      by_cases hne : (!(gatherSources (infos.flatMap frameSources)).isEmpty) = true
       · rw [if_pos hne] at ht ⊢
         cases ht; rfl
       · rw [if_neg hne] at ht ⊢
@@ -1059,6 +1189,36 @@ open HdVerif HdVerif.SREvidence
 
 /-! ## helper lemmas for the document-level theorems -/
 
+/-- every item below the root has a value type of the enumeration and a relationship type; the root's value type is of
+the enumeration (what the conversion of the copied tree demands) -/
+def Convertible (tree : Item) : Prop :=
+  Gen.srValueTypes.contains tree.vt = true ∧
+  ∀ it ∈ descendants tree, Gen.srValueTypes.contains it.vt = true ∧ it.rel.isSome = true
+
+theorem convertTree_ok_iff (tree : Item) : convertTree tree = .ok () ↔ Convertible tree := by
+  unfold convertTree Convertible
+  cases hr : Gen.srValueTypes.contains tree.vt with
+  | false => simp
+  | true =>
+    simp only [Bool.not_true, Bool.false_eq_true, if_false, true_and]
+    cases hf : (descendants tree).find? (fun it => !Gen.srValueTypes.contains it.vt || it.rel.isNone) with
+    | none =>
+      simp only [true_iff]
+      intro it hit
+      have := List.find?_eq_none.mp hf it hit
+      cases hv : Gen.srValueTypes.contains it.vt <;> cases hrel : it.rel <;> simp_all
+    | some it =>
+      have hmem := List.mem_of_find?_eq_some hf
+      have hp := List.find?_some hf
+      simp only
+      constructor
+      · intro h
+        exfalso
+        split at h <;> cases h
+      · intro h
+        have := h it hmem
+        cases hv : Gen.srValueTypes.contains it.vt <;> cases hrel : it.rel <;> simp_all
+
 /-- no SCOORD3D item at any depth -/
 def NoScoord3d (tree : Item) : Prop := ∀ it ∈ descendants tree, it.vt ≠ "SCOORD3D"
 
@@ -1111,6 +1271,8 @@ theorem built_fields (a : DocArgs) (d : Doc) (h : buildSR a = .ok d) :
       d.other = (if a.record then oth else []) ∧ d.predecessors = a.previous.map predecessors ∧
       d.verifiedFlag = a.verified := by
   unfold buildSR at h
+  split at h
+  · cases h
   split at h
   · cases h
   split at h
@@ -1258,7 +1420,7 @@ open HdVerif HdVerif.SREvidence
 theorem refSegFrame_unpack (s : Seg) (fs : Option (List Int)) (seg : Option Int) (r : SegFrameRef)
     (h : refSegFrame s fs seg = .ok r) :
     s.isSeg = true ∧ ∃ fnums a sn src, segFrameNumbers s fs seg = .ok fnums ∧
-      segFrameLoop s fnums ⟨[], none, []⟩ = .ok a ∧ segFrameSource s a = .ok src ∧ segFrameSegment a seg = .ok sn ∧
+      segFrameLoop s fnums ⟨[], none, [], false⟩ = .ok a ∧ segFrameSource s a = .ok src ∧ segFrameSegment a seg = .ok sn ∧
       r = ⟨s.cls, s.inst, fnums, sn, src⟩ := by
   unfold refSegFrame at h
   cases hs : s.isSeg with
